@@ -43,6 +43,10 @@ pub struct TunP {
     pub open_after_us: u64,
     /// the client ends the tunnel at this instant (absolute)
     pub end_at_us: u64,
+    /// HTTP/1.1: the destination streams without end and the client reads at 2 MB/s, so that a
+    /// download is in flight, under back-pressure, when the shutdown is submitted
+    #[serde(default)]
+    pub flood: bool,
 }
 
 #[derive(Clone, Debug, Serialize, Deserialize)]
@@ -147,6 +151,7 @@ impl Scenario for ShutdownScn {
                                 0 => rng.size(open_at_us, submit_at_us.max(open_at_us + 1)),
                                 _ => submit_at_us + rng.size(1, 300_000),
                             },
+                            flood: !h2 && rng.chance(1, 3),
                         })
                         .collect(),
                     client_closes_at_us: submit_at_us + completion_after_us + rng.size(1_000, 400_000),
@@ -309,10 +314,23 @@ async fn run(plan: SPlan) -> Obs {
             }
         }
     });
-    // echo hosts
+    // echo hosts (and hosts that stream without end)
+    let flooding: Vec<SocketAddr> = plan
+        .sessions
+        .iter()
+        .enumerate()
+        .flat_map(|(s, sp)| sp.tunnels.iter().enumerate().filter(|(_, t)| t.flood && !sp.h2).map(move |(t, _)| host_addr(s, t)))
+        .collect();
     let hosts = tokio::spawn(async move {
         loop {
-            let (_, c) = world::next_established().await;
+            let (addr, c) = world::next_established().await;
+            if flooding.contains(&addr) {
+                tokio::spawn(async move {
+                    let chunk = vec![0x6du8; 4096];
+                    while c.write_all(&chunk).await.is_ok() {}
+                });
+                continue;
+            }
             tokio::spawn(async move {
                 loop {
                     match c.read(64 * 1024).await {
@@ -660,6 +678,21 @@ async fn session_h1(s: usize, sp: &SessP, peer: PeerConn, o: Sh<Obs>) {
                 return;
             }
         }
+        if tp.flood {
+            // a slow reader: 1 KiB every 500 us until the endpoint (or the plan) ends it
+            let wait = tp.end_at_us.saturating_sub(world::now_us()).max(1);
+            let _ = tokio::time::timeout(Duration::from_micros(wait), async {
+                loop {
+                    match peer.read(1024).await {
+                        PeerRead::Data(_) => sleep_us(500).await,
+                        _ => break,
+                    }
+                }
+            })
+            .await;
+            o.lock().unwrap().sessions[s].tunnels[0].ended_at = Some(world::now_us());
+            return;
+        }
         // one echo, then wait for whoever ends the connection first
         let data = pattern(s as u64, 0, 64);
         let _ = peer.write_all(&data).await;
@@ -829,7 +862,10 @@ fn judge(plan: &SPlan, o: &Obs, out: &mut Outcome) {
             }
         }
         // the session itself must end: idle ones at the submission, busy HTTP/2 ones with their last stream
-        let deadline = latest_end + 60_000;
+        // (what is in flight towards a client reading 2 MB/s - a queued chunk and the one in
+        // hand, up to 64 KiB each - takes up to 70 ms more to flush before the close)
+        let flooded = !sp.h2 && sp.tunnels.iter().any(|t| t.flood);
+        let deadline = latest_end + 60_000 + if flooded { 100_000 } else { 0 };
         match so.closed_by_endpoint_at {
             Some(c) if c <= deadline => {
                 if c + eps < ts && so.client_closed_at.map(|x| x > c).unwrap_or(true) && sp.tunnels.is_empty() {
